@@ -433,6 +433,17 @@ pub fn run_op(c: &mut Case, idx: usize, toks: &[&str]) -> String {
             Some(_) => "ok:unit".to_string(),
             None => "err:MODEL-STUCK:U".to_string(),
         },
+        // the handle is dropped while its owner unwinds from a panic (a scope that panics with the handle open)
+        ["hdropunwind", r] => match c.handles.remove(&r.parse::<usize>().unwrap()) {
+            Some(h) => {
+                let _ = std::panic::catch_unwind(std::panic::AssertUnwindSafe(move || {
+                    let _guard = h;
+                    panic!("unwinding with an open handle");
+                }));
+                "ok:unit".to_string()
+            }
+            None => "err:MODEL-STUCK:U".to_string(),
+        },
         ["hreadtoend", r] => match c.handles.get_mut(&r.parse::<usize>().unwrap()) {
             Some(Handle::R(h)) => {
                 let mut v = vec![];
